@@ -252,65 +252,132 @@ Section Spec.
                rewrite ?mc_cl, ?mc_tbl, ?mc_ab, ?mc_tr.
   Ltac snap1 := constructor; [eexists _, _; split; [reflexivity|exact I]|constructor].
 
-  Lemma kubectl_apply_spec s l :
-    let s2 := fst (kubectl_apply sc s l) in
-    let r := snd (kubectl_apply sc s l) in
+  (* a request item logged with the snapshot of the cluster before or after the operation
+     (APIService fallback: the rejected apply PATCH is logged before the second attempt changes
+     the cluster) *)
+  Definition snap2 (cl cl' : cluster) (it : item) : Prop := snap_of cl it \/ snap_of cl' it.
+
+  Lemma snap2_same cl it : snap2 cl cl it -> snap_of cl it.
+  Proof. intros [H|H]; exact H. Qed.
+  Lemma Forall_snap2_r cl cl' lt : Forall (snap_of cl') lt -> Forall (snap2 cl cl') lt.
+  Proof. intros F. eapply Forall_impl; [|exact F]. intros it H. right. exact H. Qed.
+  Lemma Forall_snap2_l cl cl' lt : Forall (snap_of cl) lt -> Forall (snap2 cl cl') lt.
+  Proof. intros F. eapply Forall_impl; [|exact F]. intros it H. left. exact H. Qed.
+  Lemma Forall_snap2_same cl lt : Forall (snap2 cl cl) lt -> Forall (snap_of cl) lt.
+  Proof. intros F. eapply Forall_impl; [|exact F]. apply snap2_same. Qed.
+  (* what holds of every snapshot item whatever the cluster *)
+  Lemma Forall_snap2_shape (P : item -> Prop) cl cl' lt :
+    (forall c it, snap_of c it -> P it) -> Forall (snap2 cl cl') lt -> Forall P lt.
+  Proof. intros H F. eapply Forall_impl; [|exact F]. intros it [X|X]; eapply H; exact X. Qed.
+
+  (* one attempt (a server-side PATCH or a client-side apply): every logged request carries the
+     snapshot of the cluster after it *)
+  Definition ka_spec (l : lobj) (s s2 : rst) (r : option N) : Prop :=
     r_tbl s2 = r_tbl s /\ r_aband s2 = r_aband s /\
     exists lt, r_tr s2 = lt ++ r_tr s /\ Forall (snap_of (r_cl s2)) lt /\
     match r with
     | None => r_cl s2 = r_cl s
     | Some u => (dry = true /\ r_cl s2 = r_cl s) \/ (dry = false /\ applied (r_cl s) (r_cl s2) (l_id l) u)
     end.
+
+  Lemma ssa_patch_spec s l n : ssa_mode sc = true ->
+    ka_spec l s (fst (ssa_patch sc s l n)) (ssa_result (snd (ssa_patch sc s l n))).
   Proof.
-    cbv zeta. unfold kubectl_apply. cbv zeta.
+    unfold ka_spec, ssa_patch, ssa_mode. cbv zeta.
+    destruct (o_dry (sc_opts sc)) eqn:ED; cbn [is_dry]; intros M.
+    - (* no dry-run *)
+      destruct (faulted sc (FStream (l_id l) n)); leaf.
+      { split; [reflexivity|]. split; [reflexivity|]. eexists [_]. split; [reflexivity|]. split; [snap1|reflexivity]. }
+      destruct (faulted sc (FApply (l_id l))); leaf.
+      * split; [reflexivity|]. split; [reflexivity|]. eexists [_]. split; [reflexivity|]. split; [snap1|reflexivity].
+      * destruct (find_obj (objs (r_cl s)) (l_id l)) as [c|] eqn:EF; leaf.
+        -- split; [reflexivity|]. split; [reflexivity|]. eexists [_]. split; [reflexivity|]. split; [snap1|].
+           right. split; [reflexivity|]. apply applied_put; try reflexivity.
+           left. exists c. split; [exact EF|reflexivity].
+        -- split; [reflexivity|]. split; [reflexivity|]. eexists [_]. split; [reflexivity|]. split; [snap1|].
+           right. split; [reflexivity|]. apply applied_put; try reflexivity; try apply N.le_succ_diag_r.
+           right. split; [exact EF|apply N.le_refl].
+    - discriminate M.
+    - (* server dry-run *)
+      destruct (faulted sc (FStream (l_id l) n)); leaf.
+      { split; [reflexivity|]. split; [reflexivity|]. eexists [_]. split; [reflexivity|]. split; [snap1|reflexivity]. }
+      destruct (faulted sc (FApply (l_id l))); leaf.
+      + split; [reflexivity|]. split; [reflexivity|]. eexists [_]. split; [reflexivity|]. split; [snap1|reflexivity].
+      + destruct (find_obj (objs (r_cl s)) (l_id l)) as [c|] eqn:EF; leaf;
+          (split; [reflexivity|]; split; [reflexivity|]; eexists [_]; split; [reflexivity|]; split; [snap1|]; left; split; reflexivity).
+  Qed.
+
+  Lemma csa_apply_spec s l : ka_spec l s (fst (csa_apply sc s l)) (snd (csa_apply sc s l)).
+  Proof.
+    unfold ka_spec, csa_apply. cbv zeta.
     pose proof (same4_get_obj s (l_id l)) as G. pose proof (get_obj_found sc s (l_id l)) as GF.
     pose proof (get_obj_notfound s (l_id l)) as GN.
     destruct (get_obj sc s (l_id l)) as [s1 g]. cbn [fst snd] in G, GF, GN. destruct G as [G1 [G2 [G3 G4]]].
-    unfold ssa_mode. destruct (o_dry (sc_opts sc)) eqn:ED; cbn [is_dry].
-    - (* no dry-run *)
-      destruct (o_ssa (sc_opts sc)).
-      + destruct (faulted sc (FApply (l_id l))); leaf.
-        * split; [reflexivity|]. split; [reflexivity|]. eexists [_]. split; [reflexivity|]. split; [snap1|reflexivity].
-        * destruct (find_obj (objs (r_cl s)) (l_id l)) as [c|] eqn:EF; leaf.
-          -- split; [reflexivity|]. split; [reflexivity|]. eexists [_]. split; [reflexivity|]. split; [snap1|].
-             right. split; [reflexivity|]. apply applied_put; try reflexivity.
-             left. exists c. split; [exact EF|reflexivity].
-          -- split; [reflexivity|]. split; [reflexivity|]. eexists [_]. split; [reflexivity|]. split; [snap1|].
-             right. split; [reflexivity|]. apply applied_put; try reflexivity; try apply N.le_succ_diag_r.
-             right. split; [exact EF|apply N.le_refl].
-      + destruct g as [| |c]; leaf.
-        * rewrite G1, G2, G3, G4. split; [reflexivity|]. split; [reflexivity|]. exists []. split; [reflexivity|]. split; [constructor|reflexivity].
-        * destruct (faulted sc (FApply (l_id l))); leaf; rewrite ?G1, ?G2, ?G3, ?G4.
-          -- split; [reflexivity|]. split; [reflexivity|]. eexists [_]. split; [reflexivity|]. split; [snap1|reflexivity].
-          -- split; [reflexivity|]. split; [reflexivity|]. eexists [_]. split; [reflexivity|]. split; [snap1|].
-             right. split; [reflexivity|]. apply applied_put; try reflexivity; try apply N.le_succ_diag_r.
-             right. split; [apply GN; reflexivity|apply N.le_refl].
-        * pose proof (GF c eq_refl) as EF. pose proof (find_obj_id _ _ _ EF) as EI.
-          destruct (patch_needed c l) eqn:PN; cbn [negb]; leaf.
-          -- destruct (faulted sc (FApply (l_id l))); leaf; rewrite ?G1, ?G2, ?G3, ?G4.
-             ++ split; [reflexivity|]. split; [reflexivity|]. eexists [_]. split; [reflexivity|]. split; [snap1|reflexivity].
-             ++ split; [reflexivity|]. split; [reflexivity|]. eexists [_]. split; [reflexivity|]. split; [snap1|].
-                right. split; [reflexivity|]. apply applied_put.
-                ** rewrite merged_id. exact EI.
-                ** apply merged_owner.
-                ** apply merged_uid.
-                ** apply N.le_refl.
-                ** left. exists c. split; [exact EF|reflexivity].
-          -- rewrite G1, G2, G3, G4. split; [reflexivity|]. split; [reflexivity|]. exists []. split; [reflexivity|]. split; [constructor|].
-             right. split; [reflexivity|]. split; [apply frame_refl|].
-             exists c. split; [exact EF|]. split; [eapply no_patch_owned; exact PN|]. split; [reflexivity|].
-             left. exists c. split; [exact EF|reflexivity].
-    - (* client dry-run *)
+    destruct (is_dry (o_dry (sc_opts sc))) eqn:ED.
+    - (* dry-run: nothing is sent after the read *)
       destruct g as [| |c]; leaf; rewrite ?G1, ?G2, ?G3, ?G4.
       + split; [reflexivity|]. split; [reflexivity|]. exists []. split; [reflexivity|]. split; [constructor|reflexivity].
       + split; [reflexivity|]. split; [reflexivity|]. exists []. split; [reflexivity|]. split; [constructor|]. left. split; reflexivity.
       + destruct (negb (patch_needed c l)); leaf; rewrite ?G1, ?G2, ?G3, ?G4;
           (split; [reflexivity|]; split; [reflexivity|]; exists []; split; [reflexivity|]; split; [constructor|]; left; split; reflexivity).
-    - (* server dry-run *)
-      destruct (faulted sc (FApply (l_id l))); leaf.
-      + split; [reflexivity|]. split; [reflexivity|]. eexists [_]. split; [reflexivity|]. split; [snap1|reflexivity].
-      + destruct (find_obj (objs (r_cl s)) (l_id l)) as [c|] eqn:EF; leaf;
-          (split; [reflexivity|]; split; [reflexivity|]; eexists [_]; split; [reflexivity|]; split; [snap1|]; left; split; reflexivity).
+    - destruct g as [| |c]; leaf.
+      * rewrite G1, G2, G3, G4. split; [reflexivity|]. split; [reflexivity|]. exists []. split; [reflexivity|]. split; [constructor|reflexivity].
+      * destruct (faulted sc (FApply (l_id l))); leaf; rewrite ?G1, ?G2, ?G3, ?G4.
+        -- split; [reflexivity|]. split; [reflexivity|]. eexists [_]. split; [reflexivity|]. split; [snap1|reflexivity].
+        -- split; [reflexivity|]. split; [reflexivity|]. eexists [_]. split; [reflexivity|]. split; [snap1|].
+           right. split; [reflexivity|]. apply applied_put; try reflexivity; try apply N.le_succ_diag_r.
+           right. split; [apply GN; reflexivity|apply N.le_refl].
+      * pose proof (GF c eq_refl) as EF. pose proof (find_obj_id _ _ _ EF) as EI.
+        destruct (patch_needed c l) eqn:PN; cbn [negb]; leaf.
+        -- destruct (faulted sc (FApply (l_id l))); leaf; rewrite ?G1, ?G2, ?G3, ?G4.
+           ++ split; [reflexivity|]. split; [reflexivity|]. eexists [_]. split; [reflexivity|]. split; [snap1|reflexivity].
+           ++ split; [reflexivity|]. split; [reflexivity|]. eexists [_]. split; [reflexivity|]. split; [snap1|].
+              right. split; [reflexivity|]. apply applied_put.
+              ** rewrite merged_id. exact EI.
+              ** apply merged_owner.
+              ** apply merged_uid.
+              ** apply N.le_refl.
+              ** left. exists c. split; [exact EF|reflexivity].
+        -- rewrite G1, G2, G3, G4. split; [reflexivity|]. split; [reflexivity|]. exists []. split; [reflexivity|]. split; [constructor|].
+           right. split; [reflexivity|]. split; [apply frame_refl|].
+           exists c. split; [exact EF|]. split; [eapply no_patch_owned; exact PN|]. split; [reflexivity|].
+           left. exists c. split; [exact EF|reflexivity].
+  Qed.
+
+  (* the whole apply: the same, with snapshots of the cluster before or after it *)
+  Definition ka_spec2 (l : lobj) (s s2 : rst) (r : option N) : Prop :=
+    r_tbl s2 = r_tbl s /\ r_aband s2 = r_aband s /\
+    exists lt, r_tr s2 = lt ++ r_tr s /\ Forall (snap2 (r_cl s) (r_cl s2)) lt /\
+    match r with
+    | None => r_cl s2 = r_cl s
+    | Some u => (dry = true /\ r_cl s2 = r_cl s) \/ (dry = false /\ applied (r_cl s) (r_cl s2) (l_id l) u)
+    end.
+
+  Lemma ka_spec_weaken l s s2 r : ka_spec l s s2 r -> ka_spec2 l s s2 r.
+  Proof.
+    intros [A [B [lt [C [D E]]]]]. split; [exact A|]. split; [exact B|]. exists lt.
+    split; [exact C|]. split; [apply Forall_snap2_r; exact D|exact E].
+  Qed.
+
+  Lemma ka_spec_after_reject l s s1 s2 r : ka_spec l s s1 None -> ka_spec l s1 s2 r -> ka_spec2 l s s2 r.
+  Proof.
+    intros [A1 [B1 [lt1 [C1 [D1 E1]]]]] [A2 [B2 [lt2 [C2 [D2 E2]]]]].
+    split; [congruence|]. split; [congruence|]. exists (lt2 ++ lt1).
+    split; [rewrite C2, C1, app_assoc; reflexivity|]. split.
+    - apply Forall_app. split; [apply Forall_snap2_r; exact D2|apply Forall_snap2_l; rewrite <- E1; exact D1].
+    - rewrite <- E1. exact E2.
+  Qed.
+
+  Lemma kubectl_apply_spec s l :
+    ka_spec2 l s (fst (kubectl_apply sc s l)) (snd (kubectl_apply sc s l)).
+  Proof.
+    destruct (kubectl_apply_cases sc l s) as [[_ ->]|[[M [-> _]]|[M [E [_ [_ ->]]]]]].
+    - apply ka_spec_weaken, csa_apply_spec.
+    - cbn [fst snd]. apply ka_spec_weaken, ssa_patch_spec, M.
+    - pose proof (ssa_patch_spec s l 0 M) as S1. rewrite E in S1. cbn [ssa_result] in S1.
+      destruct (apisvc_fallback_cases sc l (fst (ssa_patch sc s l 0))) as [[_ ->]|[_ ->]].
+      + cbn [fst snd]. eapply ka_spec_after_reject; [exact S1|apply ssa_patch_spec, M].
+      + eapply ka_spec_after_reject; [exact S1|apply csa_apply_spec].
   Qed.
 
   (* ---- one object of an apply task ------------------------------------------------ *)
@@ -321,7 +388,7 @@ Section Spec.
     exists a u gen lt,
       r_tbl s' = set_status Nat.eqb (r_tbl s) (mkRec i SApply a RPending u gen) /\
       r_tr s' = IEv (EApply g i (ast_of a)) :: lt ++ r_tr s /\
-      Forall (snap_of (r_cl s')) lt /\
+      Forall (snap2 (r_cl s) (r_cl s')) lt /\
       ( (a = AFailed \/ a = ASkipped) /\ r_cl s' = r_cl s
         \/ a = ASucceeded /\ dry = true /\ r_cl s' = r_cl s
         \/ a = ASucceeded /\ dry = false /\ applied (r_cl s) (r_cl s') i u ).
@@ -335,9 +402,9 @@ Section Spec.
     destruct (policy_apply_filter sc s (p_id p)) as [s1 f1]. cbn [fst] in P. destruct P as [P1 [P2 [P3 P4]]].
     destruct (match f1 with FPass => _ | _ => _ end).
     - (* passes the filters *)
-      pose proof (kubectl_apply_spec s1 l) as K. cbv zeta in K.
+      pose proof (kubectl_apply_spec s1 l) as K. unfold ka_spec2 in K.
       destruct (kubectl_apply sc s1 l) as [s2 r]. cbn [fst snd] in K.
-      destruct K as [K1 [K2 [lt [K3 [K4 K5]]]]].
+      destruct K as [K1 [K2 [lt [K3 [K4 K5]]]]]. rewrite P1 in K4.
       destruct r as [u|]; leaf.
       + split; [congruence|]. exists ASucceeded, u, harness_gen, lt.
         split; [rewrite K1, P2; reflexivity|]. split; [rewrite K3, P4; reflexivity|]. split; [exact K4|].
@@ -717,13 +784,19 @@ Section Spec.
     unfold policy_apply_filter. destruct (o_policy _); cbn [fst]; try reflexivity;
       (pose proof (cache_get_obj s i) as G; destruct (get_obj sc s i) as [s1 g]; cbn [fst] in G; destruct g; exact G).
   Qed.
-  Lemma cache_kubectl_apply s l : r_cache (fst (kubectl_apply sc s l)) = r_cache s.
+  Lemma cache_ssa_patch l s n : r_cache (fst (ssa_patch sc s l n)) = r_cache s.
   Proof.
-    unfold kubectl_apply. cbv zeta.
-    pose proof (cache_get_obj s (l_id l)) as G. destruct (get_obj sc s (l_id l)) as [s1 g]. cbn [fst] in G.
-    destruct (ssa_mode sc); cch;
-      cbn [fst log_req emit set_cl r_cache]; rewrite ?cache_maybe_cancel; try reflexivity; exact G.
+    unfold ssa_patch. cbv zeta. cch;
+      cbn [fst log_req emit set_cl r_cache]; rewrite ?cache_maybe_cancel; reflexivity.
   Qed.
+  Lemma cache_csa_apply l s : r_cache (fst (csa_apply sc s l)) = r_cache s.
+  Proof.
+    unfold csa_apply. cbv zeta.
+    pose proof (cache_get_obj s (l_id l)) as G. destruct (get_obj sc s (l_id l)) as [s1 g]. cbn [fst] in G.
+    cch; cbn [fst log_req emit set_cl r_cache]; rewrite ?cache_maybe_cancel; try reflexivity; exact G.
+  Qed.
+  Lemma cache_kubectl_apply s l : r_cache (fst (kubectl_apply sc s l)) = r_cache s.
+  Proof. apply (kubectl_apply_keeps sc l r_cache (cache_ssa_patch l) (cache_csa_apply l)). Qed.
   Lemma cache_apply_one pl g s p : r_cache (apply_one sc pl g s p) = r_cache s.
   Proof.
     unfold apply_one. destruct (p_local p) as [l|]; [|reflexivity].
